@@ -404,7 +404,8 @@ func (m *Model) Run(hist []string) *proto.Result {
 				res.Viol = append(res.Viol, "background work does not complete once storage works again: "+err.Error())
 			}
 		}
-		// deliver what is queued, then the node announces one more tip
+		// deliver what is queued, the node announces one more tip, then the node and its peers
+		// announce the still-valid transactions of the pool once more
 		for len(w.N.Queue) > 0 {
 			if err := w.Deliver(); err != nil {
 				res.Err = err.Error()
@@ -419,6 +420,8 @@ func (m *Model) Run(hist []string) *proto.Result {
 			res.Err = err.Error()
 			return res
 		}
+		// (after the catch-up: a wallet that is behind ignores relayed transactions by design)
+		res.Info["reannounced"] = w.ReannounceRelayed()
 	default:
 		for len(w.N.Queue) > 0 {
 			if err := w.Deliver(); err != nil {
@@ -442,6 +445,17 @@ func (m *Model) Run(hist []string) *proto.Result {
 	}
 	diffs, obs := w.CheckLedger()
 	res.Viol = append(res.Viol, diffs...)
+	if len(w.Relayed) > 0 && (mode == "fail" || mode == "") {
+		// pending set against the reference pending model (not after a crash: relays announced
+		// while the process is down are legitimately unknown to it)
+		pd := w.CheckPending()
+		if len(diffs) == 0 {
+			res.KnownTags = w.PendingKnownTags(pd)
+		}
+		for _, x := range pd {
+			res.Viol = append(res.Viol, "pending: "+x)
+		}
+	}
 	if m.O.Tasks {
 		res.Viol = append(res.Viol, w.CheckTasksDone()...)
 		res.Viol = append(res.Viol, w.CheckRemoved()...)
